@@ -38,6 +38,7 @@ type HSeg struct {
 	LenDelta int    `json:"lenDelta"` // added to the payload length field (inconsistent lengths)
 	PreDelta int    `json:"preDelta"` // added to the prefix length field
 	SufDelta int    `json:"sufDelta"` // added to the suffix length field
+	LenAbs   int    `json:"lenAbs,omitempty"` // > 0: the payload length field is this, whatever follows
 	TsOff    int    `json:"tsOff"`    // minutes
 	LEMode   uint8  `json:"leMode"`
 	LEMask   uint32 `json:"leMask"`
@@ -52,6 +53,11 @@ type HostileCase struct {
 	OpenFirst     bool   `json:"openFirst,omitempty"` // the attacker opens a proper session of its own first
 	Segs          []HSeg `json:"segs"`
 	Salt          uint64 `json:"salt"`
+	// Flood > 0 (UDP, against the server): the attacker opens a proper session
+	// of its own, whose server-side application never reads, and sends that many
+	// well-formed in-order one-byte data segments on it without regard for the
+	// advertised receive window (4096 fill the session's receive queue)
+	Flood int `json:"flood,omitempty"`
 }
 
 var c10users = []e2e.UserSpec{{Name: "victim", Password: "victim-pw"}, {Name: "mallory", Password: "mallory-pw"}}
@@ -74,6 +80,10 @@ func genHSeg(t *rapid.T) HSeg {
 	if rapid.IntRange(0, 3).Draw(t, "inconsistent") == 0 {
 		s.LenDelta = rapid.SampledFrom([]int{1, -1, 8, 1000, 60000}).Draw(t, "lenDelta")
 	}
+	if rapid.IntRange(0, 5).Draw(t, "lenAbs") == 0 {
+		// the 16-bit length field at its ends: sums with the 16-byte tag wrap from 65520 on
+		s.LenAbs = rapid.SampledFrom([]int{65535, 65534, 65521, 65520, 65519, 65504, 32768, 32767, 1025}).Draw(t, "lenAbsV")
+	}
 	if rapid.IntRange(0, 5).Draw(t, "padInconsistent") == 0 {
 		s.PreDelta = rapid.SampledFrom([]int{1, -1, 200}).Draw(t, "preDelta")
 		s.SufDelta = rapid.SampledFrom([]int{1, -1, 200}).Draw(t, "sufDelta")
@@ -92,6 +102,10 @@ func genHostile(t *rapid.T) HostileCase {
 	n := rapid.IntRange(1, 30).Draw(t, "nSegs")
 	for i := 0; i < n; i++ {
 		c.Segs = append(c.Segs, genHSeg(t))
+	}
+	if c.UDP && !c.AgainstClient && rapid.IntRange(0, 7).Draw(t, "flood") == 0 {
+		c.OpenFirst = true
+		c.Flood = rapid.SampledFrom([]int{4100, 4360, 4700}).Draw(t, "floodN")
 	}
 	return c
 }
@@ -121,6 +135,9 @@ func build(h HSeg, own, victim uint32, salt uint64, i int, toClient bool) refpro
 		}
 	}
 	spec.Meta.PayloadLen = uint16(int(spec.Meta.PayloadLen) + h.LenDelta)
+	if h.LenAbs > 0 {
+		spec.Meta.PayloadLen = uint16(h.LenAbs)
+	}
 	spec.Meta.PrefixLen = uint8(int(spec.Meta.PrefixLen) + h.PreDelta)
 	spec.Meta.SuffixLen = uint8(int(spec.Meta.SuffixLen) + h.SufDelta)
 	return spec
@@ -278,6 +295,21 @@ func propHostile(c HostileCase) (o pbt.Outcome) {
 			b, _ := refproto.EncodeDatagram(key, n, open)
 			sock.WriteTo(b, srv)
 			time.Sleep(2 * time.Millisecond)
+		}
+		for k := 1; k <= c.Flood; k++ {
+			d := refproto.SegSpec{Meta: refproto.Meta{Proto: 6, Timestamp: uint32(time.Now().Unix() / 60), SessionID: ownSid, Seq: uint32(k), Window: 4096}, Payload: []byte{byte(k)}, FixLengths: true}
+			n := make([]byte, 24)
+			e2e.PRFFill(c.Salt^0x5151, int64(k)*24, n)
+			n = e2e.UniqueNonce(n)
+			b, _ := refproto.EncodeDatagram(key, n, d)
+			sock.WriteTo(b, srv)
+			if k%256 == 0 {
+				time.Sleep(2 * time.Millisecond) // let the server keep up: nothing is lost on the way
+			}
+		}
+		if c.Flood > 0 {
+			time.Sleep(50 * time.Millisecond)
+			o.Label("windowIgnoringFlood")
 		}
 		for i, h := range c.Segs {
 			if h.GapMs > 0 {
